@@ -457,10 +457,11 @@ def _parse_type(t):
     def typ():
         if peek() == "forall":
             eat()
+            vs = []
             while peek() != ".":
-                eat()
+                vs.append(eat())
             eat(".")
-            return typ()
+            return ("forall", vs, typ())
         if peek() == "[":          # implicit argument
             raise ValueError("implicit")
         a = app()
@@ -492,15 +493,20 @@ def _parse_type(t):
         if tok == "{":
             eat()
             fields = []
+            tail = None
             while peek() != "}":
                 if peek() == "|":
-                    raise ValueError("row tail")
+                    eat()
+                    tail = eat()
+                    break
                 name = eat()
                 eat(":")
                 fields.append((name, typ()))
                 if peek() == ",":
                     eat()
             eat("}")
+            if tail is not None:
+                return ("record", fields, tail)
             return ("record", fields)
         if tok is None or not re.match(r"[A-Za-z_]", tok):
             raise ValueError("atom %s" % tok)
@@ -521,6 +527,8 @@ def shape_ok(type_text, value_text):
         return None
     def chk(ty, v):
         k = ty[0]
+        if k == "forall":
+            return chk(ty[2], v)
         if k == "fn":
             return v[0] == "opaque"
         if k == "unit":
